@@ -2454,6 +2454,111 @@ func c03Rounding(thorough bool) []*c03prog {
 	return progs
 }
 
+// ---------------------------------------------------------------- typed destinations x expression shapes (enumerated)
+
+// c03Shapes crosses every integer destination type with the width boundaries (its own minimum and
+// maximum, one beyond each, and the int64 / uint64 boundaries 2^63-1, 2^63, 2^64-1, 2^64 for every
+// type), the syntactic shape of the constant expression that denotes the value (bare literal,
+// unary, doubly negated, binary, parenthesised binary, shift, iota block with implicit repetition)
+// and the declaration context (typed constant at package level and in a function, typed variable,
+// converted and printed, converted constant).  Which path of yaegi checks the value depends on
+// the shape: a literal or a unary expression of one goes through representableConst, a binary
+// expression takes the declared type from the pre-order and is only looked at by
+// convertConstantValue when it is used (regions decl-type-propagation, conv-requantized).
+func c03Shapes() []*c03prog {
+	var progs []*c03prog
+	pow := func(k int) *big.Int { return new(big.Int).Lsh(big.NewInt(1), uint(k)) }
+	one := big.NewInt(1)
+	lit := func(z *big.Int) *cx {
+		a := new(big.Int).Abs(z)
+		e := &cx{K: "int", Z: a, Lit: a.String()}
+		if z.Sign() < 0 {
+			return &cx{K: "un", Op: "-", A: e}
+		}
+		return e
+	}
+	bin := func(op string, a, c *cx) *cx { return &cx{K: "bin", Op: op, A: a, C: c} }
+	small := func(n int64) *cx { return &cx{K: "int", Z: big.NewInt(n), Lit: fmt.Sprint(n)} }
+	// shapes of an expression denoting v
+	shapes := func(v *big.Int) map[string]*cx {
+		m := map[string]*cx{
+			"literal": lit(v),
+			"unary":   &cx{K: "un", Op: "+", A: lit(v)},
+			"negneg":  &cx{K: "un", Op: "-", A: lit(new(big.Int).Neg(v))},
+			"binary":  bin("+", lit(new(big.Int).Sub(v, one)), small(1)),
+			"paren":   &cx{K: "paren", A: bin("-", lit(new(big.Int).Add(v, big.NewInt(3))), small(3))},
+		}
+		// shift: v = ±2^k or ±2^k - 1
+		abs := new(big.Int).Abs(v)
+		sign := small(1)
+		if v.Sign() < 0 {
+			sign = &cx{K: "un", Op: "-", A: small(1)}
+		}
+		if abs.Sign() > 0 && new(big.Int).And(abs, new(big.Int).Sub(abs, one)).Sign() == 0 {
+			m["shift"] = bin("<<", sign, small(int64(abs.BitLen()-1)))
+		} else {
+			p1 := new(big.Int).Add(v, one)
+			ap := new(big.Int).Abs(p1)
+			if ap.Sign() > 0 && new(big.Int).And(ap, new(big.Int).Sub(ap, one)).Sign() == 0 {
+				s1 := small(1)
+				var sg *cx = s1
+				if p1.Sign() < 0 {
+					sg = &cx{K: "un", Op: "-", A: small(1)}
+				}
+				m["shift"] = bin("-", bin("<<", sg, small(int64(ap.BitLen()-1))), small(1))
+			}
+		}
+		return m
+	}
+	order := []string{"literal", "unary", "negneg", "binary", "paren", "shift"}
+	for _, t := range c03IntTypes {
+		n := bitsOf(t)
+		var min, max *big.Int
+		if isUintT(t) {
+			min, max = big.NewInt(0), new(big.Int).Sub(pow(n), one)
+		} else {
+			min, max = new(big.Int).Neg(pow(n-1)), new(big.Int).Sub(pow(n-1), one)
+		}
+		seen := map[string]bool{}
+		var vals []*big.Int
+		for _, v := range []*big.Int{max, new(big.Int).Add(max, one), min, new(big.Int).Sub(min, one),
+			new(big.Int).Sub(pow(63), one), pow(63), new(big.Int).Sub(pow(64), one), pow(64)} {
+			if !seen[v.String()] {
+				seen[v.String()] = true
+				vals = append(vals, v)
+			}
+		}
+		for _, v := range vals {
+			sh := shapes(v)
+			for _, name := range order {
+				e, ok := sh[name]
+				if !ok {
+					continue
+				}
+				spec := func(kind, dt string, x *cx) *c03prog {
+					return &c03prog{Kind: kind, Groups: [][]c03spec{{{Names: []int{1}, Type: dt, Exprs: []*cx{x}}}}, Paren: []bool{false}}
+				}
+				conv := &cx{K: "conv", T: t, A: e}
+				progs = append(progs, spec("const-global", t, e), &c03prog{Kind: "expr", E: conv})
+				if name == "unary" || name == "negneg" {
+					continue // same path as the bare literal: two contexts are enough
+				}
+				progs = append(progs,
+					spec("const-local", t, e),
+					&c03prog{Kind: "var", VarT: t, E: e},
+					spec("const-global", "", conv))
+			}
+			// iota block: the third spec repeats the expression of the first and reaches v
+			for _, kind := range []string{"const-global", "const-local"} {
+				e := bin("+", lit(new(big.Int).Sub(v, big.NewInt(2))), &cx{K: "iota"})
+				progs = append(progs, &c03prog{Kind: kind, Paren: []bool{true}, Hide: map[int]bool{1: true, 2: true},
+					Groups: [][]c03spec{{{Names: []int{1}, Type: t, Exprs: []*cx{e}}, {Names: []int{2}}, {Names: []int{3}}}}})
+			}
+		}
+	}
+	return progs
+}
+
 func runC03(args []string) error {
 	fs := flag.NewFlagSet("c03", flag.ExitOnError)
 	out := fs.String("out", "/verif/build/C03", "output directory")
@@ -2564,7 +2669,7 @@ func runC03(args []string) error {
 			sm.count("discarded:unmodelled")
 			return nil
 		}
-		if stream != "boundary" && stream != "rounding" {
+		if stream != "boundary" && stream != "rounding" && stream != "shapes" {
 			if !want(region) {
 				return nil
 			}
@@ -2577,6 +2682,11 @@ func runC03(args []string) error {
 	// enumerated boundary literals of every integer width, float limits, zero divisors, shift counts
 	for _, c := range prepare(c03Boundary()) {
 		if err := admit("boundary", c); err != nil {
+			return err
+		}
+	}
+	for _, c := range prepare(c03Shapes()) {
+		if err := admit("shapes", c); err != nil {
 			return err
 		}
 	}
